@@ -113,7 +113,7 @@ func c07RefVarint(b []byte) (v uint64, n int) {
 func VerifC07Arbitrary() {
 	n := 5
 	if rt.Tier() > 0 {
-		n = 8
+		n = 7
 	}
 	data := rt.Bytes("stream", 0, n)
 	rt.AllocLimit(int(streamEstablishMaxPacketSize))
